@@ -159,6 +159,7 @@ def run(prop: str, tier: str) -> int:
         run_items(rep, prop, ids, "dataclass", quick, "c14-ids-objects")   # incl. mapper pairs that relocate the id
         run_items(rep, prop, plain if not quick else plain[::3], "ustr", quick, "c14-unicode")
         run_items(rep, prop, plain if not quick else plain[::2], "unhash", quick, "c14-unhashable")
+        run_items(rep, prop, plain if not quick else plain[1::2], "factory", quick, "c14-node-factory")   # Tree(factory=...)
     else:
         if prop == "C12":
             doc_examples(rep, prop)
